@@ -77,7 +77,9 @@ for (fam, B) in (("skinny128", 16), ("skinny64", 8), ("mantis", 8)):
         INC = fam + "_inc_counter"
         XB = fam + "_xor"
     else:
-        J(c + "def_set_key", ["C10", "C14", "C05", "C02"], HC, "h_def_set_key", enforce=P + "_set_key",
+        J(c + "def_set_key.len16", ["C10", "C14", "C05", "C02"], HC, "h_def_set_key", enforce=P + "_set_key", defs=["VERIF_CASE_LEN=16"],
+          replace=["mantis_set_key"], must_have=PC, replay=R + "_life")
+        J(c + "def_set_key.invalid", ["C10", "C14", "C05", "C02"], HC, "h_def_set_key", enforce=P + "_set_key", defs=["VERIF_CASE_INVALID=1"],
           replace=["mantis_set_key"], must_have=PC, replay=R + "_life")
         J(c + "def_set_tweak", ["C14", "C02"], HC, "h_def_set_tweak", enforce=P + "_set_tweak",
           replace=["mantis_set_tweak"], must_have=PC, replay=R + "_life")
@@ -102,9 +104,13 @@ J("m.ecb_crypt", ["C02", "C09", "C11", "C12"], HM, "h_ecb_crypt", enforce="manti
   note="forward and reflected loops in lock-step with the paper's MANTIS-r steps; stored tweak")
 J("m.ecb_crypt_tweaked", ["C02", "C09", "C11", "C12"], HM, "h_ecb_crypt_tweaked", enforce="mantis_ecb_crypt_tweaked",
   must_have=LC + PC, replay="mantis", timeout=1800, note="same with the explicit per-call tweak")
-J("m.set_key", ["C02", "C10", "C14", "C11"], HM, "h_set_key", enforce="mantis_set_key", unwind=10, loops=False,
+J("m.set_key.len16", ["C02", "C10", "C14", "C11"], HM, "h_set_key", enforce="mantis_set_key", defs=["VERIF_CASE_LEN=16"], unwind=10, loops=False,
   must_have=PC, replay="mantis,reject",
-  note="k0, k1, k0' = (k0>>>1)^(k0>>63), decrypt mode swaps k0/k0' and xors alpha; zero tweak; the 8-iteration rotate loop is unwound (program-constant bound, unwinding assertion on)",
+  note="16-byte key; k0, k1, k0' = (k0>>>1)^(k0>>63), decrypt mode swaps k0/k0' and xors alpha; zero tweak; the 8-iteration rotate loop is unwound (program-constant bound, unwinding assertion on)",
+  bounded=None)
+J("m.set_key.invalid", ["C02", "C10", "C14", "C11"], HM, "h_set_key", enforce="mantis_set_key", defs=["VERIF_CASE_INVALID=1"], unwind=10, loops=False,
+  must_have=PC, replay="mantis,reject",
+  note="any other key size (symbolic): rejected, empty frame; k0, k1, k0' = (k0>>>1)^(k0>>63), decrypt mode swaps k0/k0' and xors alpha; zero tweak; the 8-iteration rotate loop is unwound (program-constant bound, unwinding assertion on)",
   bounded=None)
 J("m.set_tweak", ["C02", "C14", "C11"], HM, "h_set_tweak", enforce="mantis_set_tweak", must_have=PC, replay="mantis,reject")
 J("m.swap_modes", ["C03", "C11"], HM, "h_swap_modes", enforce="mantis_swap_modes", must_have=PC, replay="mantis")
@@ -135,8 +141,9 @@ for (fam, B) in (("skinny128", 16), ("skinny64", 8), ("mantis", 8)):
       note="NULL -> 0; calloc failure -> 0 with inert object; success: zeroed schedule, back end = widest offered by the CPU model, parallel_size matches")
     J(c + "cleanup", ["C15", "C17"], HP, "h_cleanup", enforce=P + "_cleanup", replace=["skinny_cleanse"],
       must_have=PC + ["C17 erasure"], replay=R + "_life")
-    J(c + "set_key", ["C10", "C14"], HP, "h_set_key", enforce=P + "_set_key",
-      replace=[fam + "_set_key"], must_have=PC, replay=R + "_life")
+    for (tag, dfs) in ((("", []),) if fam != "mantis" else ((".len16", ["VERIF_CASE_LEN=16"]), (".invalid", ["VERIF_CASE_INVALID=1"]))):
+        J(c + "set_key" + tag, ["C10", "C14"], HP, "h_set_key", enforce=P + "_set_key", defs=dfs,
+          replace=[fam + "_set_key"], must_have=PC, replay=R + "_life")
     if fam == "mantis":
         J(c + "swap_modes", ["C03", "C14"], HP, "h_swap_modes", enforce=P + "_swap_modes", replace=["mantis_swap_modes"],
           must_have=PC, replay=R + "_life")
@@ -174,6 +181,52 @@ for (fam, stubs, slots) in (("skinny128", ["stub128", "stub256"], ["set_key", "s
         J(c + sl, ["C14", "C15", "C06"], HC, "h_pub_" + sl, enforce=fam + "_ctr_" + sl, defs=["VERIF_ROLE_WRAP=1"],
           replace=ALLBE, must_have=PC, replay=R + "_life",
           note="NULL / zeroed / cleaned-up object -> 0 and nothing called; else exactly one call of the same operation of the object's own back end with the same arguments, result passed through")
+
+# ------------------------------------------------------------------ CPU probes and aligned allocator (skinny-internal.c)
+HIC = "h_internal_c.c"
+VECF = ["-msse2", "-mavx2"]
+J("cpu.has_vec128", ["C13", "C18"], HIC, "h_has128", enforce="_skinny_has_vec128", cflags=VECF, must_have=PC, replay="cpuid",
+  note="result == SSE2 bit of the modelled CPU, for every modelled CPU and every content of the unspecified ECX")
+J("cpu.has_vec256", ["C13", "C18"], HIC, "h_has256", enforce="_skinny_has_vec256", cflags=VECF, must_have=PC, replay="cpuid",
+  replace=["skinny_xgetbv0"],
+  note="result == (max leaf >= 7, OSXSAVE, AVX, XCR0[2:1] == 11b, leaf 7 SUB-LEAF 0 EBX[5]) of the modelled CPU; XGETBV wrapper replaced by its assumed contract")
+J("cpu.calloc", ["C15", "C16"], HIC, "h_calloc", enforce="skinny_calloc", cflags=VECF, cbmc=MF, must_have=PC, replay="ctr128_life",
+  note="aligned pointer inside the fresh block, base kept for free(); NULL and nothing stored on failure")
+
+# ------------------------------------------------------------------ SIMD CTR back ends
+SIMD = [("skinny128-ctr-vec128", "skinny128", "skinny128_ctr_vec128", 16, 4, "v128a.", ["-msse2"], "skinny128_ecb_encrypt_four", "skinny128_ctr_increment", "skinny128_xor", "ctr128"),
+        ("skinny128-ctr-vec256", "skinny128", "skinny128_ctr_vec256", 16, 8, "v128b.", ["-mavx2"], "skinny128_ecb_encrypt_eight", "skinny128_ctr_increment", "skinny128_xor", "ctr128"),
+        ("skinny64-ctr-vec128", "skinny64", "skinny64_ctr_vec128", 8, 8, "v64.", ["-msse2"], "skinny64_ecb_encrypt_eight", "skinny64_ctr_increment", "skinny64_xor", "ctr64"),
+        ("mantis-ctr-vec128", "mantis", "mantis_ctr_vec128", 8, 8, "vm.", ["-msse2"], "mantis_ecb_encrypt_eight", "mantis_ctr_increment", "skinny64_xor", "ctrm")]
+for (fn, fam, P, B, LANES, c, fl, EFN, INC, XB, R) in SIMD:
+    HS = "h_%s.c" % fn.replace("-", "_")
+    J(c + "init", ["C15", "C16", "C05", "C06", "C11"], HS, "h_init", enforce=P + "_init", cflags=fl, replace=["skinny_calloc"],
+      must_have=PC, replay=R + "_life," + R,
+      note="allocator wrapper replaced by its contract (may fail); success: base pointer kept, offset = batch, lanes hold counters 0..%d" % (LANES - 1))
+    J(c + "cleanup", ["C15", "C17"], HS, "h_cleanup", enforce=P + "_cleanup", cflags=fl, replace=["skinny_cleanse"],
+      must_have=PC + ["C17 erasure"], replay=R + "_life",
+      note="base pointer read before the wipe, whole context wiped, base freed exactly once (layout: aligned pointer == block base)")
+    J(c + "increment", ["C05"], HS, "h_increment", enforce=INC, cflags=fl, loops=False, unwind=B + 1, must_have=PC, replay=R,
+      note="lane `column` += inc as a big-endian %d-bit integer incl. every carry and wrap; other lanes unchanged; %d-iteration loop unwound (complete)" % (8 * B, B))
+    for n in range(0, B + 1):
+        J(c + "set_counter.len%d" % n, ["C05", "C06", "C14"], HS, "h_set_counter", enforce=P + "_set_counter", cflags=fl,
+          defs=["VERIF_CASE_LEN=%d" % n], replace=[INC, "skinny_cleanse"], must_have=PC, replay=R, timeout=1800,
+          note="counter length %d, NULL or not: witness lane j holds padded counter + j" % n)
+    J(c + "set_counter.invalid", ["C05", "C14"], HS, "h_set_counter", enforce=P + "_set_counter", cflags=fl,
+      defs=["VERIF_CASE_INVALID=1"], replace=[INC, "skinny_cleanse"], must_have=PC, replay=R, timeout=1800)
+    J(c + "encrypt", ["C05", "C06", "C09", "C14"], HS, "h_encrypt", enforce=P + "_encrypt", cflags=fl,
+      defs=["VERIF_ROLE_CTR=1"], replace=[EFN, INC, XB, "skinny_xor"], must_have=LC + PC + ["ptr-norm"], replay=R, timeout=2400,
+      note="coverage layer with the lanes-consecutive representation invariant; size <= 2^40 symbolic")
+    if fam == "mantis":
+        for (tag, dfs) in ((".len16", ["VERIF_CASE_LEN=16"]), (".invalid", ["VERIF_CASE_INVALID=1"])):
+            J(c + "set_key" + tag, ["C10", "C14", "C06"], HS, "h_set_key", enforce=P + "_set_key", cflags=fl, defs=dfs,
+              replace=["mantis_set_key"], must_have=PC, replay=R + "_life")
+        J(c + "set_tweak", ["C14", "C06"], HS, "h_set_tweak", enforce=P + "_set_tweak", cflags=fl, replace=["mantis_set_tweak"], must_have=PC, replay=R + "_life")
+    else:
+        J(c + "set_key", ["C10", "C14", "C06"], HS, "h_set_key", enforce=P + "_set_key", cflags=fl, replace=[fam + "_set_key"], must_have=PC, replay=R + "_life")
+        J(c + "set_tweaked_key", ["C10", "C14", "C06"], HS, "h_set_tweaked_key", enforce=P + "_set_tweaked_key", cflags=fl,
+          replace=[fam + "_set_tweaked_key"], must_have=PC, replay=R + "_life")
+        J(c + "set_tweak", ["C14", "C06", "C04"], HS, "h_set_tweak", enforce=P + "_set_tweak", cflags=fl, replace=[fam + "_set_tweak"], must_have=PC, replay=R + "_life")
 
 
 def by_id(i):
